@@ -171,19 +171,20 @@ CONFIG = {
         "coverage floors (harness exits non-zero = layer R failure): kills, earlier crashes, GC/init/reopen/cascade finals, cuts inside multi-write pushes, AutoSaveIndex-off scripts; more than 5 % of the injected kills missing their window or more than 10 % unjudged kill cases fail the run",
         "digest-and-size verification (content.NewVerifyReader, SHA-256) is the Section variable H: a content c matches the name d iff H c = d; no property of H is assumed",
         "encoding/json of index.json / oci-layout is abstracted: a file holds the marshalled entry list as one write unit and parses back to it; Go's map iteration order in saveIndex is the Section variable shuffle with hypothesis In e (shuffle c l) <-> In e l",
-        "descriptors: Tag/Delete are also generated with a digest+size-only descriptor (MediaType \"\") of the same blob; the model identifies a blob by its digest (after fix 89e7351 so does Store.delete). A descriptor whose media type LIES about the content (a layer tagged as a manifest) is a caller inconsistency outside the quantifier; since db2ff94 Tag refuses it. References are never digest strings",
-        "manifests that do not decode are generated (blob kind badmanifest): the model has no notion of decodability; the driver translates Push of such content into the composite [Push bytes; Delete] (stored, unindexable, removed again) and Tag into a refused call -- this translation is part of the trusted driver, the composite theorem covers the resulting step lists; 'oci.New succeeds' includes decoding every indexed manifest only in the oracle (real oci.New), not in the Coq predicate index_ok",
+        "descriptors: Tag/Delete are also generated with a digest+size-only descriptor (MediaType \"\") of the same blob; the model identifies a blob by its digest (so does Store.delete since its repair). A descriptor whose media type LIES about the content (a layer tagged as a manifest) is a caller inconsistency outside the quantifier; Tag refuses it. References that are digest strings are modelled (TagDig / ATagDigest / AUntagDigest) and generated",
+        "media type and decodability of content are Section variables mt, dec of the API layer (Model expand/api_res/runa, extracted and run by the driver): a manifest-typed blob that does not decode is stored, unindexable and removed again by Push, refused by Tag; C10_api_reopen_loads proves that loadIndex (parse, blob files exist, every manifest-typed entry decodes: load_okb) succeeds at every cut; graph.IndexAll's recursion into successors during loading is not modelled (it only reads; undecodable successors are skipped by the code)",
+        "Store.delete also enters a dangling MANIFEST successor by digest when the resolver does not hold it; the model has no successor relation (C09's subject; the bridge Proofs/OciCrashGC.v is at the level of node sets and names, not of index contents). In the generated universes this needs the leftover of a Push killed between blob rename and index rename that is later reached through a referrer after a reopen: such scripts are abandoned and counted, not judged",
         "write(2) is modelled as all-or-nothing at system-call granularity (the process is killed at system-call entries); C10_no_in_place_write shows that only temporaries are ever written, so torn writes cannot reach a file a reader looks at",
         "oci.New on an existing layout is modelled as: no change on disk, tag resolver := loadIndex(index.json) (Model reopen/load); graph.IndexAll during loading is not modelled (it only reads)",
         "crash points = entries of the file-system system calls (strace trace set in harness/crashkit10/trace.go) of the thread running the operation; other system calls (futex, mmap, signals) do not change the directory",
-        "initialisation: the property speaks of an initialised store; taken into scope as 'initialisation is restartable' for ONE crash during the first oci.New on an empty directory (C10_init_restartable, kill at every system call); repeated crashes during initialisation are not modelled. oci.New on an existing layout is kill-tested at every system call (operation 'reopen'): it only reads",
+        "initialisation: the property speaks of an initialised store; taken into scope as 'initialisation is restartable' for any number of interrupted attempts (C10_init_restartable_many; kill at every system call of the first attempt and of attempts on what one to three interrupted attempts left). oci.New on an existing layout is kill-tested at every system call (operation 'reopen'): it only reads",
         "blob names are pairs (algorithm, digest) encoded as 1000*algorithm + n (0 = sha256, 1 = sha512); sha384 is not generated",
     ],
     "trusted_extra": [
         "strace 6.1 fault injection (-e inject=<syscall>:signal=KILL:when=<n>) and its trace output; the child runs with GOMAXPROCS=1 and the main goroutine locked to the first thread; the actual kill point is re-read from the trace of the killed run",
     ],
     "level_text": "Coq theorem over every history of completed Push/Tag/Untag/Delete/SaveIndex operations, every interrupted operation and every cut of its file-system micro-step list (invariant proof, any verification function, any map iteration order): layout valid, every blob file complete and matching its name, index.json parses and names only existing blobs, index.json / tag mapping is the one before or the one after, no completed effect lost; the same after any number of earlier crashes each followed by oci.New on what was left (tag resolver reloaded from index.json, leftover temporaries in place); completed histories refine the sequential specification of the API; no file a reader looks at is ever written in place (write granularity irrelevant); the pre-repair in-place index write and the swapped Delete order are refuted by witnesses. Delete with AutoGC and GC: every cut of a call made of any list of primitives is a crash state of one primitive between two quiescent states of the call (C10_crash_safe_composite), after any earlier crashes; a crash during the first oci.New is repaired by the next one (C10_init_restartable). The orders the proofs depend on (temp+rename writes of index.json and oci-layout, index before unlink, GC: save before sweep) are re-read from the Go source on every run (translator kind callseq) and configure the model; the thorough tier re-evaluates a sample of kill cases inside Coq with vm_compute. The model is tied to the code by killing a real child process at every system call of the interrupted operation (strace inject) and comparing the directory with the model after the same number of micro-steps, by comparing the recorded system-call script with the model's micro-step list, and by an independent oracle (oci.New + raw readers + generator ground truth)",
-    "level_note": "theorems: full for AutoSaveIndex=true and Push/Tag/Untag/Delete/SaveIndex incl. histories with earlier crashes; Delete-with-AutoGC and GC at the level 'any list of primitives' plus C10_gc_crash_safe / C10_cascade_* under explicit hypotheses that the harness checks on every recorded call (what a cascade or sweep visits is C09). Oracle-only clauses: 'the directory can be opened again' beyond parsing (decoding of every indexed manifest: real oci.New); 'effects of completed operations are present' after EARLIER CRASHES (theorem C10_completed_effects covers crash-free histories; after crashes only Recoverable relative to the model's own states + the oracle's ground truth of blobs, tags and index entries); AutoSaveIndex=false is refuted and a known finding; kernel semantics (atomic rename, no loss at process death) modelled, not verified; JSON encoding and SHA-2 abstracted; callseq items tie source ORDER, not control flow (a changed condition is seen by the correspondence, not by T)",
+    "level_note": "theorems: full for AutoSaveIndex=true over histories of API calls (expand: media type / decodability decide the primitives) and of primitives, with any number of earlier crashes: Recoverable at every cut, loadIndex succeeds incl. manifest decoding (C10_api_reopen_loads), completed effects survive and nothing is invented across crashes, initialisation restartable after any number of interrupted attempts; Delete-with-AutoGC and GC at the level 'any list of primitives' plus C10_gc_crash_safe / C10_cascade_* whose hypotheses are derived from C09's exact sets (C10_cascade_of_gc_model, C10_gc_of_gc_model; names_agree is the only link between the two models) and checked by the harness on every recorded call. Oracle-only: graph.IndexAll's recursion on load; the index contents of Store.delete's re-entry of a dangling manifest by digest (scripts reaching it are abandoned); descriptor fields of index entries (media type, annotations). AutoSaveIndex=false is refuted and a known finding; kernel semantics (atomic rename, no loss at process death) modelled, not verified; JSON encoding and SHA-2 abstracted; concurrent callers of one Store are not modelled; callseq/callguards tie source ORDER and enclosing CONDITIONS of the effects, nothing else of the control flow",
     "technique": "machine-checked proof in Coq (invariant over file-system micro-steps, every cut of every operation after every history) + model/implementation correspondence by real SIGKILL at every system-call boundary (strace) + independent oracle",
     "explanation": "theorems over all histories/operations/cuts about the micro-step model of content/oci (Store.Push/Tag/Untag/Delete/SaveIndex, Storage.Push/ingest/Delete, writeIndexFile); each run records the system calls of scripted operations on a real oci.Store in a child process, kills the child before every system call of the final operation, and compares directory, script and results with the extracted model; the oracle reopens the killed directory with oci.New and checks blobs, index entries, tag mapping (before/after) and completed effects against the generator's ground truth",
 }
